@@ -6,6 +6,12 @@ import os
 HERE = os.path.dirname(os.path.dirname(os.path.abspath(__file__)))
 
 CHECKS = {
+    "C01": dict(
+        technique="runtime monitoring: open/save executions on corpus and seeded generated packages; offline checker (independent zipfile+lxml OPC reader) comparing parts, content types, payloads and relationship sets of input and output, and first vs second save byte for byte",
+        text="All 67 corpus decks (+2 directory packages) x {path, stream, extracted directory} x {OpcPackage, Package}, and 400 (quick) / 30 000 (thorough) generated packages with adversarial relationship graphs, target spellings, Default/Override/case mixes, same-extension/different-type parts, arbitrary payloads and unreachable extras; every reachable part compared for name, resolved content type, payload (bytes, or C14N-equivalent XML) and relationship set; second save compared member for member. Held on what was generated; the generator's classes are listed in the evidence.",
+        note="Trusted: vlib/opcx.py (independent reader, RFC 3986 resolution, OPC content-type resolution), lxml C14N for XML equivalence. Generated inputs are self-checked to satisfy the statement's precondition; rejected ones are counted, never judged.",
+        design="§3 C01",
+    ),
     "C10": dict(
         technique="runtime monitoring: exhaustive execution of the real inserter/adder/get-or-add/change-to/remove methods over schema-derived sibling contexts; libxml2 validation of a structure-only copy of the shipped XSDs as the postcondition oracle",
         text="All 196 registered tags x their schema types x the 328 child declarations recovered from the real classes at run time; ~3e4 sibling contexts (single other child both orders, all later, all earlier, all permitted per choice alternative, every ordering of two kinds in repeatable mixed content; all pairs in thorough), each self-checked, ~1e5 method executions validated. Exhaustive over the declared context families, not over all sibling multisets.",
